@@ -463,6 +463,10 @@ type node struct{ id, addr, caddr int }
 func main() {
 	mode, tier, path := vh.Args()
 	w := &world{}
+	if mode == "e2echild" { // e2e.go: one E2E scenario in a child process (seed, index)
+		e2eChild(tier, path)
+		return
+	}
 	if mode == "replay" {
 		w.exec("reset")
 		for _, l := range vh.ReadLines(path) {
